@@ -62,7 +62,7 @@ REG_OPTS = {
     ("Y", "Z"): [[], ["yz_cc"]],
     ("X", "Y", "Z"): [[], ["vol"]],
 }
-ARRAYS = {"ccc": ("t", "z_c", "y_c", "x_c"), "lcc": ("t", "z_c", "y_c", "x_l"), "clo": ("x_c", "y_l", "z_o"), "cc": ("y_c", "x_c"), "lc": ("x_l", "y_c")}
+ARRAYS = {"ccc": ("t", "z_c", "y_c", "x_c"), "lcc": ("t", "z_c", "y_c", "x_l"), "clo": ("x_c", "y_l", "z_o"), "cc": ("y_c", "x_c"), "lc": ("x_l", "y_c"), "cl": ("x_c", "y_l"), "ll": ("t", "y_l", "x_l")}
 DIM_AX = {"x_c": ("X", "center"), "x_l": ("X", "left"), "y_c": ("Y", "center"), "y_l": ("Y", "left"), "z_c": ("Z", "center"), "z_o": ("Z", "outer")}
 
 
@@ -76,7 +76,8 @@ def structures(tier, seed):
     for combo in itertools.product(*[REG_OPTS[k] for k in keys2]):
         reg = {k: v for k, v in zip(keys2, combo)}
         out.append({"part": "get", "sid": "get;" + reg_sid(reg), "reg": {"".join(k): v for k, v in reg.items()},
-                    "arrays": ["cc", "lc", "ccc"], "requests": [["X"], ["Y"], ["X", "Y"], ["Y", "X"], "X"]})
+                    # a metric of X that also varies along Y must be moved along Y too when the array sits elsewhere on Y
+                    "arrays": ["cc", "lc", "ccc"] + (["cl", "ll"] if "dx_cy" in reg[("X",)] else []), "requests": [["X"], ["Y"], ["X", "Y"], ["Y", "X"], "X"]})
     keys3 = list(REG_OPTS)
     all3 = list(itertools.product(*[REG_OPTS[k] for k in keys3]))
     rng = random.Random(seed)
